@@ -215,16 +215,51 @@ func (w *world) startAgent(name, reqID string) error {
 	// wait until that record is on disk before anything is observed
 	_ = t0
 	key := fmt.Sprintf("run:%s:%s:", name, reqID)
+	if os.Getenv("C20_SELFTEST_AGAIN") != "" && strings.Contains(w.env.Root, "-0"+string(os.PathSeparator)) {
+		// self-test of the restart path: the first attempt of every live member is declared "written too early"
+		return fmt.Errorf("%w: self-test", errAgain)
+	}
 	for {
 		d := w.dump()
 		if d[key+"Status"] == "1" && d[key+"Nodes[0].Status"] == "1" {
 			return nil
+		}
+		// The agent writes the status twice before a step ends: right after opening the history file and 100 ms
+		// later. On an overloaded machine the second write can come before the first step is running; nothing
+		// more will be written then. Such a member is started again (no verdict is involved).
+		if w.liveRunLines(name, reqID) >= 2 {
+			time.Sleep(20 * time.Millisecond)
+			if d = w.dump(); d[key+"Status"] == "1" && d[key+"Nodes[0].Status"] == "1" {
+				return nil
+			}
+			return fmt.Errorf("%w: the agent of %s wrote its +100 ms status before its first step was running (overloaded machine)", errAgain, name)
 		}
 		if time.Now().After(deadline) {
 			return fmt.Errorf("%w: the live run of %s was not recorded as running within 90 s", errCap, name)
 		}
 		time.Sleep(5 * time.Millisecond)
 	}
+}
+
+var errAgain = fmt.Errorf("again")
+
+// liveRunLines: number of complete status lines in the (not yet compacted) history file of a live run.
+func (w *world) liveRunLines(name, reqID string) int {
+	dirs, _ := os.ReadDir(w.env.Data)
+	for _, dir := range dirs {
+		if m := md5dir.FindStringSubmatch(dir.Name()); m == nil || m[1] != name {
+			continue
+		}
+		files, _ := os.ReadDir(filepath.Join(w.env.Data, dir.Name()))
+		for _, f := range files {
+			if !strings.HasSuffix(f.Name(), "."+trunc8(reqID)+".dat") {
+				continue
+			}
+			b, _ := os.ReadFile(filepath.Join(w.env.Data, dir.Name(), f.Name()))
+			return strings.Count(string(b), "\n")
+		}
+	}
+	return 0
 }
 
 func (w *world) agentOf(name string) *liveAgent {
